@@ -7,6 +7,11 @@
 (* db clauses                                                              *)
 (*   print / roundtrip : Encoder output = MMVerify!PrintStmts(ast);        *)
 (*                       parse(print(db)) = db                             *)
+(*   token-kind : a token declared in a $c statement was parsed as a       *)
+(*                variable node, or a $v token as a constant (the parse    *)
+(*                must be a function of the text, not of earlier parses)   *)
+(*   fresh-parse : the same text parsed by a fresh process gives another   *)
+(*                abstract syntax tree                                     *)
 (*   slice-print, slice-roundtrip, slice-undeclared (a token used without  *)
 (*   declaration / active $f), slice-float-order, slice-statement (the     *)
 (*   lemma in the slice is the original statement with its original        *)
@@ -30,6 +35,21 @@ IsSubseq(a, b) == IF a = <<>> THEN TRUE ELSE IF b = <<>> THEN FALSE
 FindP(ss, label) == LET ps == AllP(ss) IN
                     IF \E k \in 1..Len(ps) : ps[k].label = label THEN ps[CHOOSE k \in 1..Len(ps) : ps[k].label = label]
                     ELSE [k |-> "none", label |-> label]
+
+\* all constants / variables declared anywhere in the database, and the kinds of the term nodes
+RECURSIVE Declared(_, _), TermNodes(_), TermsNodes(_), StmtNodes(_)
+Declared(ss, k) == IF ss = <<>> THEN {} ELSE
+  (IF Head(ss).k = k THEN SetOfSeq(IF k = "c" THEN Head(ss).syms ELSE Head(ss).vars)
+   ELSE IF Head(ss).k = "b" THEN Declared(Head(ss).stmts, k) ELSE {}) \cup Declared(Tail(ss), k)
+TermNodes(t) == IF "m" \in DOMAIN t THEN {<<"m", t.m>>} ELSE {<<"s", t.s>>} \cup TermsNodes(t.a)
+TermsNodes(ts) == IF ts = <<>> THEN {} ELSE TermNodes(Head(ts)) \cup TermsNodes(Tail(ts))
+StmtNodes(ss) == IF ss = <<>> THEN {} ELSE
+  (CASE Head(ss).k \in {"e", "a", "p"} -> TermsNodes(Head(ss).terms)
+     [] Head(ss).k = "f" -> {<<"m", Head(ss).var>>, <<"s", Head(ss).tc>>}
+     [] Head(ss).k = "b" -> StmtNodes(Head(ss).stmts)
+     [] OTHER -> {}) \cup StmtNodes(Tail(ss))
+KindsOK(db) == LET cs == Declared(db, "c")  vs == Declared(db, "v") IN
+               \A n \in StmtNodes(db) : IF n[1] = "m" THEN n[2] \notin cs ELSE n[2] \notin vs
 
 CheckSlice(orig, sl) ==
   LET p0 == FindP(orig, sl.label)  p1 == FindP(sl.ast, sl.label) IN
@@ -125,6 +145,8 @@ CheckCase(i) ==
   IF c.fam = "db" THEN
        IF c.out # "ok" THEN "raised"
        ELSE IF c.printed # PrintStmts(c.ast) THEN "print"
+       ELSE IF ~KindsOK(c.ast) THEN "token-kind"
+       ELSE IF c.hasfresh /\ c.fresh # c.ast THEN "fresh-parse"
        ELSE IF c.ast2 # c.ast THEN "roundtrip"
        ELSE IF Len(c.slices) # Len(c.lemmas) THEN "slice-missing"
        ELSE LET bad == {k \in 1..Len(c.slices) : CheckSlice(c.ast, c.slices[k]) # ""} IN
